@@ -422,6 +422,10 @@ def bundle(cls: type) -> Bundle:
             # Special-case the upper-cased `Roles`, as it'll often be a class-def
             setattr(bundle, "roles", val)
         elif isinstance(val, Role):
+            if val.name is None:
+                # Roles declared in-line, e.g. `HOST, DEVICE = h.Roles(2)`, are named as any other attribute is.
+                # Roles are compared by name: left un-named they would all be one and the same.
+                val.name = key
             roles_dict[key] = val
         elif is_bundle_attr(val):
             setattr(bundle, key, val)
